@@ -282,9 +282,49 @@ def _resolve_none_tests(t, P, is_none):
     return map_term(t, f)
 
 
+def _computed_column_positional(ctx):
+    """The computed column is attached row by row: the value stored under
+    the column's name is the function's result itself.  Wrapped in a pandas
+    object with an index of its own (pd.Series(values) starts at 0) the
+    assignment aligns on labels instead, and every chunk after the first -
+    whose rows carry their position in the file as labels - gets NaN."""
+    from ..events import container_events
+    from ..cfg import CFG as _CFG
+    prog = ctx.prog
+    cls = prog.cls(ST + "ComputedTabularDataReader")
+    n = 0
+    for m in ("read", "get_chunked_data_iterator"):
+        f = cls.methods.get(m)
+        ctx.require(f is not None, f"{cls.qual}.{m} not defined")
+        T = Terms(DefUse(prog, f))
+        for e in container_events(f.node, T, _CFG(f.node)):
+            if e.kind != "store" or e.key != ("attr", SELF, "column"):
+                continue
+            n += 1
+            frame = e.recv
+            bad = []
+            for x in walk_term(e.value):
+                if isinstance(x, tuple) and x and x[0] == "call" and \
+                        x[1] in ("pandas.Series", "pandas.DataFrame"):
+                    idx = dict(x[3]).get("index")
+                    own = idx is not None and idx[0] == "attr" and \
+                        idx[2] == "index"
+                    if not own:
+                        bad.append(show(x, 70))
+            ctx.check(not bad, "C13a-computed-column-positional", f,
+                      "the computed values are attached by position",
+                      f"the column is assigned {bad[:1]}: a pandas object "
+                      "with a fresh 0..n-1 index is aligned on labels, so "
+                      "chunks after the first (labels = row numbers of the "
+                      "file) receive NaN - chunked and whole reading differ",
+                      node=e.node)
+    ctx.floor("C13a-computed-column-stores", n, 2)
+
+
 def _readers(ctx):
     prog = ctx.prog
     conversions_agree(ctx)
+    _computed_column_positional(ctx)
     n = 0
     for cq in READERS:
         cls = prog.cls(cq)
@@ -737,9 +777,60 @@ def write_overrides_start_fresh(ctx, rule="C13e-write-starts-fresh"):
     ctx.floor(rule + "-definitions", n, 1)
 
 
+FORMAT_OPTIONS = ("quoting", "quotechar", "escapechar", "doublequote",
+                  "decimal", "encoding", "lineterminator", "compression",
+                  "na_rep", "float_format", "date_format")
+
+
+def csv_format_agreement(ctx, rule="C13e-csv-format-agreement"):
+    """What the text writer writes the text reader must read back: the two
+    classes agree on the options that change how a cell is spelled in the
+    file.  An option given to one side only (quoting=QUOTE_NONE on to_csv,
+    decimal="," on read_csv ...) makes some cell come back changed."""
+    prog = ctx.prog
+    sides = {}
+    for cls_q, api in ((TD + "CSVFileWriter", "to_csv"),
+                       (TD + "CSVFileReader", "read_csv")):
+        opts = {}
+        d = _attr_value(prog, cls_q, "stdargs")
+        ctx.require(d is not None and d[0] == "dict",
+                    f"{cls_q}: stdargs is not a dictionary display")
+        for kk, vv in zip(d[1], d[2]):
+            if kk[0] == "const" and kk[1] in FORMAT_OPTIONS:
+                opts[kk[1]] = vv
+        cls = prog.cls(cls_q)
+        for m in cls.methods.values():
+            if isinstance(m.node, ast.Lambda):
+                continue
+            c = Calls(prog, m)
+            for t, _n in c.items:
+                name = t[2] if t[0] == "mcall" else (
+                    t[1].rsplit(".", 1)[-1] if t[0] == "call" else None)
+                if name != api:
+                    continue
+                for k, v in (t[4] if t[0] == "mcall" else t[3]):
+                    if k in FORMAT_OPTIONS:
+                        opts.setdefault(k, v)
+                        if opts[k] != v:
+                            opts[k] = ("mixed", opts[k], v)
+        sides[api] = opts
+    w, r = sides["to_csv"], sides["read_csv"]
+    diff = {k: (show(w.get(k, ("const", "<default>")), 30),
+                show(r.get(k, ("const", "<default>")), 30))
+            for k in set(w) | set(r) if w.get(k) != r.get(k)}
+    ctx.check(not diff, rule, prog.cls(TD + "CSVFileWriter").methods.get(
+        "__init__"),
+        "the text writer and the text reader use the same cell format "
+        "options",
+        f"format options (writer, reader) differ: {diff}: a cell written "
+        "under one convention is parsed under the other, so rows read back "
+        "are not the rows written")
+
+
 def _lifecycle(ctx):
     prog = ctx.prog
     write_overrides_start_fresh(ctx)
+    csv_format_agreement(ctx)
     FNAME = ("attr", SELF, "file_name")
     # --- write() = validate, initialize, append, finalize
     w = prog.func(TD + "TabularDataWriter.write")
